@@ -93,7 +93,10 @@ def shards(tier, seed):
     mult = 50 if tier == "thorough" else 1
     for i in range(16):
         out.append({"name": "rise-%02d" % i, "part": "rise", "idx": i,
-                    "n_sun": 260 * mult, "n_rts": 1300 * mult})
+                    "n_sun": 260 * mult, "n_rts": 1300 * mult,
+                    # POSIX TZ strings (no tz database needed)
+                    "tz": ("UTC0", "JST-9", "EST5", "NZST-12",
+                           "IST-5:30")[i % 5]})
     return out
 
 
@@ -512,6 +515,9 @@ def run(mon, spec):
             case_eot_year(mon, y)
         return
     rng = random.Random(spec["seed"] * 1000003 + spec["idx"])
+    import time as _time
+    mon.cls("process-time-zone " + "/".join(_time.tzname),
+            ("tz", spec.get("tz")), spec.get("tz"))
     if spec["idx"] == 0:
         for p in ([2100, 9, 22, 60.3, -2.0, 0.0], [2019, 4, 2, 48.1333,
                                                    11.5667, 520.0],
